@@ -77,6 +77,28 @@ let show_outcome = function
 let b2s b = if b then "1" else "0"
 let keywords kwfix is_lam = if kwfix then (if is_lam then ["lambda"] else ["def"]) else ["def"; "lambda"]
 
+(* cut a stream into call segments at the candidates the scan recorded (start.stop pairs):
+   glue = tokens after the previous stop up to the last NAME before the lambda, gap = between that
+   NAME and the lambda, body = between the lambda and its stop token *)
+let rec take n l = if n <= 0 then [] else match l with [] -> [] | x :: r -> x :: take (n - 1) r
+let rec drop n l = if n <= 0 then l else match l with [] -> [] | _ :: r -> drop (n - 1) r
+let slice l a b = take (b - a) (drop a l)
+let decompose (toks : tok list) (cands : (int * int) list) : segment list * tok list =
+  let arr = Array.of_list toks in
+  let n = Array.length arr in
+  let rec go prev = function
+    | [] -> ([], slice toks prev n)
+    | (a, b) :: rest ->
+        let ni = ref (-1) in
+        for i = prev to a - 1 do if arr.(i).tkind = KName then ni := i done;
+        if !ni < 0 || b >= n || a >= n then failwith "nodecomp";
+        let g = { g_glue = slice toks prev !ni; g_name = arr.(!ni).ttext; g_row = arr.(!ni).trow;
+                  g_gap = slice toks (!ni + 1) a; g_lrow = arr.(a).trow; g_body = slice toks (a + 1) b;
+                  g_stop = arr.(b) } in
+        let (gs, tail) = go (b + 1) rest in
+        (g :: gs, tail) in
+  go 0 cands
+
 let handle (cmd : string) (args : string list) : string =
   match cmd, args with
   | "find", [rowfix; kwfix; streams; l; is_lam; dsrc; caller; fargs; ptab] ->
@@ -114,6 +136,31 @@ let handle (cmd : string) (args : string list) : string =
       b2s (rows_okb toks)
       ^ b2s (lambda_atb p toks k0 (nat_of_int (int_of_string l)) (hexs caller) (strs_of fargs))
       ^ b2s (not_nestedb toks k0)
+  | "layout", [streams; si; cands; k0; l; caller; fargs; ptab] ->
+      (* does finder_supported_layouts_partial apply to this case?  answer: three bits
+         (stream = layout_toks of the decomposition; earlier streams back up; supported_layoutb)
+         and the index the theorem predicts *)
+      let ss = streams_of streams in
+      let si = int_of_string si and k0 = int_of_string k0 in
+      let toks = List.nth ss si in
+      let p = ptable_of ss ptab in
+      let cl = List.map (fun e -> match String.split_on_char '.' e with
+          | [a; b] -> (int_of_string a, int_of_string b) | _ -> failwith "cand") (split_ne ';' cands) in
+      (try
+         let (gs, tail) = decompose toks cl in
+         let rec split3 gs cl = match gs, cl with
+           | g :: gr, (a, _) :: cr ->
+               if a = k0 then ([], g, gr)
+               else let (g1, g0, g2) = split3 gr cr in (g :: g1, g0, g2)
+           | _ -> failwith "nodecomp" in
+         let (gs1, g0, gs2) = split3 gs cl in
+         let back = List.for_all (fun ts -> match scan_stream p ["lambda"] ts with ScNoName _ -> true | _ -> false)
+             (take si ss) in
+         let pred = int_of_nat (seg_start g0 (nat_of_int (List.length (List.concat_map seg_toks gs1)))) in
+         Printf.sprintf "%s%s%s %d" (b2s (layout_toks gs tail = toks)) (b2s back)
+           (b2s (supported_layoutb p (nat_of_int (int_of_string l)) (hexs caller) (strs_of fargs) gs1 g0 gs2 tail))
+           pred
+       with Failure "nodecomp" -> "--- -1")
   | _ -> "BADCMD " ^ cmd
 
 let () =
